@@ -30,14 +30,32 @@ def tasks(tier, seed):
     zm = build.support_module('zlib_stub.cpp')
     txt = open(os.path.join(HERE, 'harness', 'c10_file_hostile.cpp')).read()
     ts.append(Task('file.hostile_header', txt, 'h_hostile', None,
-                   opts=dict(alloc_policy=(64, 1 << 28), enum_limit=400, max_steps=600000, extra=['zlib_stub.cpp'],
+                   opts=dict(alloc_policy=(64, 1 << 28), enum_limit=400, max_steps=600000, extra=['zlib_stub.cpp'], limit_is_hang=True,
                              validate=False, max_wall=600),
                    desc='file of three CanMessage objects written by the library (level 0); the second object header '
                         'gets a symbolic 32-bit objectSize and a type code from {CAN_MESSAGE, CAN_MESSAGE2, APP_TEXT, '
                         'unknown 200, 0, LOG_CONTAINER}; whole read session (3 threads, cooperative schedule): open, '
                         'read until null (<= 50 objects), close; no deadlock, no livelock, no memory error',
                    reach=('end',), bounds='one corrupted object header; all 2^32 sizes x 6 type codes',
-                   kinds={'memory', 'assert', 'uncaught_exception', 'terminate', 'deadlock', 'limit', 'trap'}))
+                   kinds={'memory', 'assert', 'uncaught_exception', 'terminate', 'deadlock', 'hang', 'limit', 'trap'}))
+    csrc = open(os.path.join(HERE, 'harness', 'c10_container_hostile.cpp')).read()
+    variants = [(0, 0, 1), (0, 0, 2), (0, 0, 4), (6, 0, 1), (6, 0, 4), (0, 1, 0)]
+    if tier != 'quick':
+        variants += [(0, 0, 7), (6, 0, 7), (6, 0, 2)]
+    names = {1: 'objectSize', 2: 'compressionMethod', 4: 'uncompressedFileSize', 7: 'all_three', 0: ''}
+    for lvl, mode, fields in variants:
+        ts.append(Task('file.hostile_%s_l%d' % ('container_' + names[fields] if mode == 0 else 'object_multi', lvl),
+                       '#define VP_FS_CAP 4096\n#define CFG_LEVEL %d\n#define MODE %d\n#define FIELDS %d\n' % (lvl, mode, fields or 7) + csrc,
+                       'h_container', None,
+                       opts=dict(alloc_policy=(8, 1 << 28), enum_limit=600, max_steps=2000000, extra=['zlib_stub.cpp'],
+                                 limit_is_hang=True, validate=False, max_wall=900),
+                       desc=('file of four CanMessage objects in 40-byte containers (level %d); in the second container header the '
+                             'field(s) %s are symbolic (full width)' % (lvl, names[fields])) if mode == 0 else
+                            ('same file (level 0), stream buffer scaled down to one container; the header of the second object, which is '
+                             'followed by further containers, gets a symbolic 32-bit objectSize and a type code from {CAN_MESSAGE, '
+                             'CAN_MESSAGE2, APP_TEXT, unknown 200, 0}'),
+                       reach=('h_container:end',), bounds='one corrupted header; all values of the symbolic fields',
+                       kinds={'memory', 'assert', 'uncaught_exception', 'terminate', 'deadlock', 'hang', 'limit', 'trap'}))
     meta = dict(
         level='model_checking',
         explanation='(1) Memory safety of every decoder: the real <Type>::read runs on symbolic bytes; every load/store is '
